@@ -169,9 +169,24 @@ def rule_children(ck):
         cond = any(guards_of(c, f.node) for c in calls) or any(in_loop(c, f.node) is not None for c in calls)
         (o.ok() if sorted(map(str, roots)) == ['0', '1', '2', '3'] and same and not cond else
          o.fail('the builder starts from the roots %s; the globe is the four zoom-1 tiles \'0\',\'1\',\'2\',\'3\', each exactly once with the same parameters' % roots))
+        ex = Expander(P, f)
+        if q == Q + 'from_catalog':
+            # the refinement counts the catalog's own epicentres: the same coordinates the lookup would be asked about
+            g = P.func(callee_q)
+            for c in calls[:1]:
+                m, okb = bind_args(g, c)
+                for pname, acc in (('lon', 'get_longitudes'), ('lat', 'get_latitudes')):
+                    oo = ck.ob('C17-D3.coords', f, '%s handed to the refinement' % pname, c)
+                    a = m.get(pname)
+                    e = strip_shape(ex.expand(a)) if a is not None else None
+                    good = isinstance(e, ast.Call) and isinstance(e.func, ast.Attribute) and e.func.attr == acc and not e.args \
+                        and isinstance(e.func.value, ast.Name) and e.func.value.id == f.positional_params[1 if f.positional_params[0] in ('cls', 'self') else 0]
+                    (oo.ok('catalog.%s()' % acc) if good else
+                     oo.fail('the refinement counts events at `%s`, not at the catalog\'s %s: cells are then split (or kept) by events the '
+                             'point lookup places elsewhere, so a cell can exceed the threshold or be split at or below it'
+                             % (u(e)[:90] if e is not None else '?', acc[4:])))
         # the result is built from the collected quadkeys
         o = ck.ob('C17-D2.collect', f, 'region built from the collected quadkeys', f.node)
-        ex = Expander(P, f)
         r = [x for x in returns(f) if x.value is not None]
         txt = ' '.join(u(s) for s in f.node.body)
         ok = 'bounds = quadtree_grid_bounds(qk)' in txt and 'compute_vertices_bounds(bounds)' in txt and 'qk = numpy.array(qk)' in txt
